@@ -87,13 +87,15 @@ def _davie_foster_approximation(W, H, h, levy_area_approximation, get_noise):
         A = H.unsqueeze(-1) * W.unsqueeze(-2) - W.unsqueeze(-1) * H.unsqueeze(-2)
         noise = get_noise()
         noise = noise - noise.transpose(-1, -2)  # noise is skew symmetric of variance 2
+        # The standard deviations below are halved in variance to account for the variance 2 of `noise`, so that
+        # Var(a_tilde) is h^2/12 (Davie), respectively h^2/20 + (h/5) (H_i^2 + H_j^2) (Foster).
         if levy_area_approximation == LEVY_AREA_APPROXIMATIONS.foster:
             # Foster's additional correction to Davie's approximation
             tenth_h = 0.1 * h
             H_squared = H ** 2
-            std = (tenth_h * (tenth_h + H_squared.unsqueeze(-1) + H_squared.unsqueeze(-2))).sqrt()
+            std = (tenth_h * (0.25 * h + H_squared.unsqueeze(-1) + H_squared.unsqueeze(-2))).sqrt()
         else:  # davie approximation
-            std = math.sqrt(_r12 * h ** 2)
+            std = math.sqrt(0.5 * _r12 * h ** 2)
         a_tilde = std * noise
         A += a_tilde
         return A
